@@ -141,16 +141,6 @@ Lemma sub_balanced total rank world :
   sub_spec total rank world = total / world \/ sub_spec total rank world = total / world + 1.
 Proof. intros _. unfold sub_spec. destruct (rank <? total mod world); lia. Qed.
 
-(** usage_k is ceil(b / log2r), at least 1, for the ranges that occur *)
-Lemma usage_k_correct b l : 1 <= b < 2 ^ 32 -> 1 <= l < 2 ^ 32 -> usage_k b l = Z.max 1 ((b + l - 1) / l).
-Proof.
-  intros Hb Hl. unfold usage_k.
-  assert (2 ^ 32 + 2 ^ 32 < 2 ^ 64) by (vm_compute; reflexivity).
-  rewrite (wrap64_id 1) by lia. rewrite (wrap64_id (b + l)) by lia. rewrite (wrap64_id (b + l - 1)) by lia.
-  rewrite wrap64_id; [reflexivity|].
-  split; [apply Z.div_pos; lia|]. assert ((b + l - 1) / l <= b + l - 1) by (apply Z.div_le_upper_bound; nia). lia.
-Qed.
-
 (** the statements of Properties_C16.v *)
 Lemma c16_sub_calls_is_spec total rank world : in_range total rank world ->
   sub_calls_plain total rank world = sub_spec total rank world /\
